@@ -90,6 +90,8 @@ class Scenario(object):
             return 'ON %s GOSUB 0' % self.ev_name(int(tok[1]))
         if k in 'jJ':
             return 'GOTO %d' % self.line(int(tok[1:]))
+        if k == 'q':
+            return 'RETURN %d' % self.line(int(tok[1:]))
         if tok == 't':
             return 'CONT'
         if tok == 'e1':
@@ -214,6 +216,7 @@ def oracle(sc, items, markers, stats=None):
     popped = None                          # frame popped by a RETURN at the previous tick
     hstart = {sc.hstart[i]: i for i in range(n)}
     seen = []
+    blind_from = None                      # the oracle stopped judging at a RETURN <line> (see there)
 
     def note(tag):
         if stats is not None:
@@ -284,7 +287,7 @@ def oracle(sc, items, markers, stats=None):
             pend = {y: min(base.get(y, t), fmin) for y in range(n) if y != x}
             if x in base:
                 pend[x] = base[x]
-            stack.append(('trap', x, fmin, pend, False))
+            stack.append(('trap', x, fmin, pend, False, t))
         popped = None
         error = False
         k = tok[0]
@@ -315,9 +318,21 @@ def oracle(sc, items, markers, stats=None):
             error = True
         elif tok == 'g':
             stack.append(('sub',))
-        elif tok == 'r':
+        elif tok == 'r' or k == 'q':
+            # RETURN and RETURN <line> pop the same frame; only the continuation differs (observed, not demanded)
             if stack:
                 popped = stack.pop()
+                if (k == 'q' and popped[0] == 'trap' and len(popped) > 5
+                        and any(hist[j][0][y] == 'on' and hist[j][1][y]
+                                for y in range(n) if y != popped[1] for j in range(popped[2], popped[5] + 1))):
+                    # The dispatch that entered this handler may have entered other traps too: their frames lie
+                    # underneath (their handlers start when the frame above RETURNs).  RETURN <line> leaves the chain:
+                    # those frames stay on the GOSUB stack with handlers that never started, and a later RETURN
+                    # continues at a handler start without a dispatch.  The statement says nothing about that; the
+                    # oracle stops here (the model correspondence still covers the rest of the run).
+                    note('return-line:frames-possibly-left-underneath(oracle-stops)')
+                    blind_from = popped[2]
+                    break
                 if popped[0] == 'trap' and not popped[4]:
                     i = popped[1]
                     busy[i], busy_lo[i] = False, False
@@ -379,7 +394,8 @@ def oracle(sc, items, markers, stats=None):
     for x, t in obligations:
         if any(f <= t <= te for f, te in entries[x]):
             continue
-        if (waive_from is not None and t >= waive_from) or any(a <= t <= b for a, b in waived):
+        if ((waive_from is not None and t >= waive_from) or any(a <= t <= b for a, b in waived)
+                or (blind_from is not None and t >= blind_from)):
             note('obligation-waived')
             continue
         if t >= len(items):
@@ -387,7 +403,7 @@ def oracle(sc, items, markers, stats=None):
         bad.append(('missed-entry', 'trap %d (%s) was ON with a handler, not busy, outside the error handler and had a remembered '
                     'occurrence at the dispatch before executed line #%d, but its handler was not entered' % (x, sc.ev_name(x), t)))
         break
-    if markers != seen:
+    if blind_from is None and markers != seen:
         bad.append(('marker-log-mismatch', 'printed markers %r differ from the executed marker lines %r' % (markers, seen)))
     return bad
 
@@ -435,6 +451,11 @@ def boundary_scenarios():
                                       ['mQ', 'mQ'], [], {5: [0], 6: [1], 7: [0, 1]})))
     # END in the error handler, fatal error, stray RETURN
     out.append(('fatal-error', S([K1], ['h0', 'n0', 'mM', 'x', 'mM'], [[]], [], [], {1: [0], 2: [0]})))
+    # a handler left through RETURN <line> re-arms its trap: the second occurrence enters it again
+    out.append(('return-line-rearms', S([K1], ['h0', 'n0', 'mM', 'mM', 'mM', 'mM', 'mM', 'mM', 'mM'], [['q5']], [], [],
+                                        {2: [0], 6: [0]})))
+    out.append(('return-line-after-stop', S([K1], ['h0', 'n0', 'mM', 'mM', 'mM', 'mM', 'mM', 'mM'], [['s0', 'q3']], [], [],
+                                            {2: [0], 4: [0]})))
     out.append(('stray-return', S([K1], ['h0', 'n0', 'e1', 'r', 'mM', 'mM'], [['r', 'mA']], [], [], {3: [0], 4: [0]})))
     # two traps at once
     out.append(('two-at-once', S([K1, K2], ['h0', 'h1', 'n0', 'n1', 'mM', 'mM', 'mM'], [['mA'], ['mB']], [], [],
@@ -575,6 +596,11 @@ def random_scenario(rng):
         main.insert(rng.randrange(len(main) + 1), 'e1')
     main += body(rng.randrange(4, 22), 'M')
     handlers = [body(rng.randrange(0, 6), 'ABCD'[i]) for i in range(n)]
+    # a handler may leave through RETURN <line> (to a line of the main section or its END): the trap must be re-armed
+    # exactly as by a plain RETURN
+    for hb in handlers:
+        if rng.random() < 0.3:
+            hb.insert(rng.choice([len(hb), len(hb), rng.randrange(len(hb) + 1)]), 'q%d' % rng.randrange(len(main) + 1))
     errh = body(rng.randrange(0, 5), 'Q')
     sub = body(rng.randrange(0, 4), 'T')
     dens = rng.choice([0.1, 0.25, 0.5, 0.9])
